@@ -78,7 +78,20 @@ impl Scenario for StakingScenario {
         }
         for (seq, o) in &ap.acks {
             if !o.ok {
-                violations.push(viol("MACHINERY", "sim.autoack_failed", format!("auto-ack of packet {seq} failed: {:?}", o.err)));
+                // the contract failed the success-acknowledgement callback of its own transfer
+                let mut judged = false;
+                for p in &self.props {
+                    if *p == "C07" {
+                        violations.push(viol("C07", "outcome.callback_failed", format!("sudo for the success acknowledgement of packet {seq} failed: {:?}", o.err)));
+                        judged = true;
+                    } else if o.undecodable && ["C01", "C02", "C03"].contains(p) {
+                        violations.push(viol(p, "wire.callback_undecodable", format!("success acknowledgement of packet {seq}: {}", o.err.clone().unwrap_or_default())));
+                        judged = true;
+                    }
+                }
+                if !judged {
+                    violations.push(viol("MACHINERY", "sim.autoack_failed", format!("auto-ack of packet {seq} failed: {:?}", o.err)));
+                }
             }
         }
         if let Err(e) = n.w.self_check(n.g.endowment) {
